@@ -2,7 +2,6 @@
 package fakes
 
 import (
-	"strconv"
 	"time"
 	"unicode/utf8"
 
@@ -15,8 +14,9 @@ import (
 
 // Counter is a plain counter implementing promext.RWCounter.
 type Counter struct {
-	Name string
-	V    uint64
+	Name   string
+	Labels []string // label values, kept by reference as client_golang does (a value that aliases a reused buffer changes)
+	V      uint64
 }
 
 func (c *Counter) Get() uint64                      { return c.V }
@@ -29,8 +29,9 @@ func (c *Counter) Collect(chan<- prometheus.Metric) {}
 
 // Gauge is a plain gauge implementing promext.RWGauge.
 type Gauge struct {
-	Name string
-	V    int64
+	Name   string
+	Labels []string
+	V      int64
 }
 
 func (g *Gauge) Get() int64                       { return g.V }
@@ -54,10 +55,21 @@ func (g *Gauge) WaitForZero(timeout time.Duration) bool {
 }
 
 type registry struct {
-	counters  map[string]*Counter
-	gauges    map[string]*Gauge
-	order     []string
+	counters  []*Counter
+	gauges    []*Gauge
 	gaugeVecs map[string]*promext.RWGaugeVec
+}
+
+func sameLabels(a, b []string) bool {
+	if len(a) != len(b) {
+		return false
+	}
+	for i := range a {
+		if a[i] != b[i] {
+			return false
+		}
+	}
+	return true
 }
 
 // Metrics is a promreg.MetricCreator that keeps everything in plain maps.
@@ -70,28 +82,26 @@ type Metrics struct {
 }
 
 func NewMetrics() *Metrics {
-	return &Metrics{reg: &registry{counters: map[string]*Counter{}, gauges: map[string]*Gauge{}, gaugeVecs: map[string]*promext.RWGaugeVec{}}}
+	return &Metrics{reg: &registry{gaugeVecs: map[string]*promext.RWGaugeVec{}}}
 }
 
 var _ promreg.MetricCreator = (*Metrics)(nil)
 
-func (m *Metrics) key(name string, values []string) string {
+// all returns the creator's fixed label values followed by the given ones, after
+// checking what client_golang checks: every label value must be valid UTF-8.
+func (m *Metrics) all(values []string) []string {
 	all := append(append([]string{}, m.labels...), values...)
 	for _, v := range all {
 		if !utf8.ValidString(v) {
 			panic("prometheus: label value is not valid UTF-8")
 		}
 	}
-	return m.prefix + name + joinValues(all)
+	return all
 }
 
-// joinValues is an injective rendering of a label tuple (length-prefixed).
-func joinValues(values []string) string {
-	out := "{"
-	for _, v := range values {
-		out += strconv.Itoa(len(v)) + ":" + v
-	}
-	return out + "}"
+func (m *Metrics) key(name string, values []string) string {
+	m.all(values)
+	return m.prefix + name
 }
 
 func (m *Metrics) String() string { return m.prefix }
@@ -111,13 +121,15 @@ func (m *Metrics) counter(name string, labelNames []string, labelValues []string
 	if len(labelNames) != len(labelValues) {
 		panic("inconsistent label cardinality")
 	}
-	k := m.key(name, labelValues)
-	if c, ok := m.reg.counters[k]; ok {
-		return c
+	labels := m.all(labelValues)
+	full := m.prefix + name
+	for _, c := range m.reg.counters {
+		if c.Name == full && sameLabels(c.Labels, labels) {
+			return c
+		}
 	}
-	c := &Counter{Name: k}
-	m.reg.counters[k] = c
-	m.reg.order = append(m.reg.order, k)
+	c := &Counter{Name: full, Labels: labels}
+	m.reg.counters = append(m.reg.counters, c)
 	return c
 }
 
@@ -129,12 +141,15 @@ func (m *Metrics) AddOrGetGauge(name string, help string, labelNames []string, l
 	if len(labelNames) != len(labelValues) {
 		panic("inconsistent label cardinality")
 	}
-	k := m.key(name, labelValues)
-	if g, ok := m.reg.gauges[k]; ok {
-		return g
+	labels := m.all(labelValues)
+	full := m.prefix + name
+	for _, g := range m.reg.gauges {
+		if g.Name == full && sameLabels(g.Labels, labels) {
+			return g
+		}
 	}
-	g := &Gauge{Name: k}
-	m.reg.gauges[k] = g
+	g := &Gauge{Name: full, Labels: labels}
+	m.reg.gauges = append(m.reg.gauges, g)
 	return g
 }
 
@@ -186,22 +201,26 @@ func (m *Metrics) GaugeVecValue(fullName string, labelValues ...string) int64 {
 	return v.WithLabelValues(labelValues...).Get()
 }
 
-// CounterValue returns the value of the counter whose full name (prefix+name)
-// matches and whose label values are exactly values.
+// CounterValue returns the sum of the counters whose full name (prefix+name)
+// matches and whose label values are - now - exactly values.
 func (m *Metrics) CounterValue(fullName string, values ...string) uint64 {
-	k := fullName + joinValues(values)
-	if c, ok := m.reg.counters[k]; ok {
-		return c.V
+	var sum uint64
+	for _, c := range m.reg.counters {
+		if c.Name == fullName && sameLabels(c.Labels, values) {
+			sum += c.V
+		}
 	}
-	return 0
+	return sum
 }
 
 func (m *Metrics) GaugeValue(fullName string, values ...string) int64 {
-	k := fullName + joinValues(values)
-	if g, ok := m.reg.gauges[k]; ok {
-		return g.V
+	var sum int64
+	for _, g := range m.reg.gauges {
+		if g.Name == fullName && sameLabels(g.Labels, values) {
+			sum += g.V
+		}
 	}
-	return 0
+	return sum
 }
 
 // NumCounters reports how many distinct counters exist.
@@ -229,9 +248,9 @@ func IsNetworkError(err error) bool { return false }
 // PromCounter is a plain prometheus.Counter.
 type PromCounter struct{ N float64 }
 
-func (c *PromCounter) Inc()                              { c.N++ }
-func (c *PromCounter) Add(v float64)                     { c.N += v }
-func (c *PromCounter) Desc() *prometheus.Desc            { return nil }
-func (c *PromCounter) Write(*dto.Metric) error           { return nil }
-func (c *PromCounter) Describe(chan<- *prometheus.Desc)  {}
-func (c *PromCounter) Collect(chan<- prometheus.Metric)  {}
+func (c *PromCounter) Inc()                             { c.N++ }
+func (c *PromCounter) Add(v float64)                    { c.N += v }
+func (c *PromCounter) Desc() *prometheus.Desc           { return nil }
+func (c *PromCounter) Write(*dto.Metric) error          { return nil }
+func (c *PromCounter) Describe(chan<- *prometheus.Desc) {}
+func (c *PromCounter) Collect(chan<- prometheus.Metric) {}
